@@ -1,2 +1,5 @@
-/-! Driver for C14 (stub: not built yet). -/
-def main : IO Unit := pure ()
+import Drivers.Proto
+import PymocaVerif.Model.SimplifyJson
+/-! Driver for C14: one pass of the `Simplify` model on a serialised real model state
+    (`simplify.pass`), and exact evaluation of expression trees (`simplify.eval`). -/
+def main : IO Unit := Drivers.serve PymocaVerif.Simplify.J.handle
